@@ -118,10 +118,10 @@ def run(ctx):
     # the list is used for membership only and read in one place
     reads = common.option_reads(prog).get('titrate_only', [])
     ctx.ob('C14.R2', 'option:single-reader',
-           [(m.name, q) for m, q, _n in reads] == [('conformation_container',
-                                                    'ConformationContainer.init_group')],
+           {(m.name, q) for m, q, _n in reads} == {('conformation_container',
+                                                    'ConformationContainer.init_group')},
            'options.titrate_only is read only by init_group (readers %s)'
-           % [m.name + '.' + q for m, q, _n in reads], cc, reads[0][2] if reads else ig)
+           % sorted({m.name + '.' + q for m, q, _n in reads}), cc, reads[0][2] if reads else ig)
     ican = canon(ig)
     holders = {st.targets[0].id for st in walk_no_nested(ig) if isinstance(st, ast.Assign)
                and isinstance(st.targets[0], ast.Name)
